@@ -25,7 +25,7 @@ CLAIMS["C01"] = (
     "state = last write per key, hosts = function of the object set); model tied by a correspondence harness on the real k8s.Configuration; order-free owner spec evaluated on the implementation's hosts map",
     "Machine-checked proof (no axioms) that for every finite history the owner of every host in the model's hosts map is the least claimant (creationTimestamp, then UID) of the current object set, "
     "that a claimed host always has an owner which is a claimant, and that hosts / listener hosts / GetResources depend on the history only through the final object set (any permutation ending in the same set); "
-    "the model is run step by step against the real Configuration on generated histories and their re-orderings, and the order-free specification is evaluated on the implementation's own hosts map after every event, together with `ValidHosts of every Ingress = the hosts the host map assigns to it`.",
+    "the model is run step by step against the real Configuration on generated histories and their re-orderings, and the order-free specification is evaluated on the implementation's own hosts map after every event, together with `ValidHosts of every Ingress = the hosts the host map assigns to it` and `no two keys of the host map are one hostname in two spellings` (`C01_one_owner_per_hostname_any_spelling`: proved for every history whose stored objects carry lower-case hosts, as the API server and the validators guarantee).",
     ARB_NOTE, "DESIGN.md 7 C01")
 CLAIMS["C02"] = (
     "Rocq theorems over all histories (listener+host owner = least claimant; active only on a listener of matching name and protocol, bound to its port/addresses) and over all listener lists "
@@ -37,7 +37,7 @@ CLAIMS["C02"] = (
 
 CLAIMS["C03"] = (
     'Rocq theorems over all histories and all states/events (replaying the emitted batches gives, under every key, exactly the attributes of the active resource after every event of every history; removals-first for every batch incl. concatenated listener+host batches; rebuild idempotent; state a function of the object set) + the shadow-replay specification evaluated in Rocq on the real change batches of every generated history; model of IsEqual/detectChanges/createResourceChanges/squash tied by correspondence',
-    "Machine-checked proof (no axioms) that for every history, applying the emitted batches in order (delete removes, addOrUpdate places) leaves configured exactly the resources GetResources() returns - nothing active is missing, nothing removed lingers (`C03_applied_set_is_active_set`, hypothesis: a TransportServer is TLS passthrough or listener-bound, not both, as ValidateTransportServer guarantees); that in every batch returned for any event in any state every removal precedes every addition/update; that rebuilding in a reachable state emits nothing; and that the state the batches must reproduce is a function of the object set. The full statement is proved as well (`C03_applied_configuration_is_current`: under every key the replayed configuration carries exactly the current attributes of the active resource) for every history obeying the API-server rule that a spec change moves the generation and a UID is not reused (with the cert-manager conversion on: challenge Ingresses of the same name and generation are converted into the same route); the tie of the model to the code is decided on every run by evaluating the shadow-replay specification in Rocq on the implementation's own batches, with a diagnosis of the stale attribute. Four genuine defects found this way were repaired by fix: commits (F01 F02 F03; F94 was found by the attempt to prove the cert-manager case and refuted in the model first).",
+    "Machine-checked proof (no axioms) that for every history, applying the emitted batches in order (delete removes, addOrUpdate places) leaves configured exactly the resources GetResources() returns - nothing active is missing, nothing removed lingers (`C03_applied_set_is_active_set`, hypothesis: a TransportServer is TLS passthrough or listener-bound, not both, as ValidateTransportServer guarantees); that in every batch returned for any event in any state every removal precedes every addition/update; that rebuilding in a reachable state emits nothing; and that the state the batches must reproduce is a function of the object set. The full statement is proved as well (`C03_applied_configuration_is_current`: under every key the replayed configuration carries exactly the current attributes of the active resource) for every history obeying the API-server rule that a spec change moves the generation and a UID is not reused (with the cert-manager conversion on: challenge Ingresses of the same name and generation are converted into the same route); the tie of the model to the code is decided on every run by evaluating the shadow-replay specification in Rocq on the implementation's own batches, with a diagnosis of the stale attribute; the listener ports and addresses of every applied resource are in addition judged against the current GlobalConfiguration itself (`C03_listener_attributes_current`, proved for every history; the same judge runs on the implementation's GetResources() after every event, so a stale listener cache that feeds both the batches and GetResources() is caught too). Four genuine defects found this way were repaired by fix: commits (F01 F02 F03; F94 was found by the attempt to prove the cert-manager case and refuted in the model first).",
     ARB_NOTE + " Attributes a configuration is rendered from = the whole Resource except warnings; an object's spec is identified by (UID, generation, annotations).", "DESIGN.md 7 C03")
 CLAIMS["C20"] = (
     "Rocq theorems over all histories, fault oracles and lister orders of a model of SyncFnFor (certmanager + externaldns), tied by a correspondence harness on the real sync functions with "
